@@ -15,6 +15,7 @@ UNIT = {
     'property': 'C02',
     'rlimit': 80,
     'verus_args': ['--edition=2024'],
+    'controls': 'auto',
     'vacuity_floor': 1,
     'items': [
         ('@raw', 'pub mod semantics { pub type Result<T = ()> = std::ops::ControlFlow<crate::fl::Divert, T>; }\n'),
